@@ -49,7 +49,7 @@ func TestC09_StorageLiabilitiesBacked(t *testing.T) {
 	grew := map[string]bool{}
 	caseReset["C09"] = func() { grew = map[string]bool{} }
 	ops := []string{"newAlloc2", "newAlloc2", "fillAlloc", "fillAlloc", "upload", "delete", "missThenPass", "missThenPass", "missThenPass", "repriceExtend", "repriceExtend", "replaceChallenged", "replaceChallenged",
-		"extend2", "extend2", "extendBackdate", "freeAlloc", "addAssigner", "readLock", "readRedeem2", "readRedeem2", "writeLock", "stake", "unstake", "unstake2", "collect", "collect2", "kill", "shutdown", "blockRewards2", "cancel", "finalize",
+		"extend2", "extend2", "extendBackdate", "freeWithReadShare", "freeAlloc", "addAssigner", "readLock", "readRedeem2", "readRedeem2", "writeLock", "stake", "unstake", "unstake2", "collect", "collect2", "kill", "shutdown", "blockRewards2", "cancel", "finalize",
 		"storageSettings", "blobberSettings2", "advance", "respond"}
 	runMachineOps(t, "C09", ops, storageDomain+" plus free-storage grants and read markers of several readers; oracle after every applied transaction: (liabilities after - liabilities before) <= (contract wallet after - before) + newly accrued block reward, where liabilities = all delegate stakes + unpaid rewards + write pools + challenge pools + read pools; non-trivial = history in which pools grew in >= 3 different kinds of transaction; distinct by history", 40, 90,
 		func(m *machine, txn *transaction.Transaction, o sim.Outcome, before *snapshot) error {
@@ -129,7 +129,7 @@ func TestC11_StakeLockUnlockExact(t *testing.T) {
 	lives := map[string]*life{}
 	caseReset["C11"] = func() { chains, lives = 0, map[string]*life{} }
 	ops := []string{"stake", "stake", "stake", "unstake", "unstake", "unstake", "collect", "collect", "newAlloc2", "newAlloc2", "upload", "upload", "upload", "challenge", "challenge", "challenge", "respond",
-		"readRedeem2", "readRedeem2", "readRedeem2", "readRedeem2", "blockRewards2", "blockRewards2", "kill", "shutdown", "cancel", "finalize", "advance", "blobberSettings2", "blobberSettings2", "unstake2", "unstake2", "collect2"}
+		"readRedeem2", "readRedeem2", "readRedeem2", "readRedeem2", "blockRewards2", "blockRewards2", "kill", "shutdown", "cancel", "finalize", "advance", "blobberSettings2", "blobberSettings2", "unstake2", "unstake2", "collect2", "storageSettings", "storageSettings"}
 	runMachineOps(t, "C11", ops, "generated storage histories biased to staking on 6 blobbers and 4 validators: stake_pool_lock of 1 unit .. 150 tokens by four clients (repeated locks into the same pool, up to max_delegates), stake_pool_unlock by stakers, non-stakers and delegate wallets, collect_reward by delegate wallets and stakers, interleaved with allocations (offers), uploads, challenges, read markers and block rewards (which accrue rewards), kills / shutdowns, closes; oracle: a successful lock debits the staker and credits the contract wallet by exactly the value, raises exactly the staker's own delegate pool of that provider by the value, respects min_stake / max_stake / max_delegates of the state, and changes no other pool; a refused lock or unlock changes no pool; a successful unlock needs an own pool, pays its owner exactly the pool's balance + its reward (+ the provider's service-charge reward when the owner is the delegate wallet), removes the pool, leaves the others untouched and (alive blobbers) leaves stake >= offers; collect_reward pays exactly the accrued reward; non-trivial = pool that was locked, received a reward and was unlocked by its owner; distinct by history", 40, 90,
 		func(m *machine, txn *transaction.Transaction, o sim.Outcome, before *snapshot) error {
 			fn := txn.FunctionName
